@@ -134,3 +134,68 @@ func (c *Conn) RemoteAddr() net.Addr {
 func (c *Conn) SetDeadline(t time.Time) error      { return nil }
 func (c *Conn) SetReadDeadline(t time.Time) error  { return nil }
 func (c *Conn) SetWriteDeadline(t time.Time) error { return nil }
+
+// ---- in-memory duplex pipe (two cooperating goroutines) ----
+
+// PipeEnd is one end of an in-memory duplex byte pipe. Read blocks until the
+// peer has written; Close makes the peer's Read return io.EOF once drained.
+type PipeEnd struct {
+	in       chan []byte
+	peer     *PipeEnd
+	left     []byte
+	closed   bool
+	OneByOne bool // every Read returns a single byte
+	Wrote    int
+}
+
+// NewPipe returns the two ends of a pipe.
+func NewPipe() (*PipeEnd, *PipeEnd) {
+	a := &PipeEnd{in: make(chan []byte, 64)}
+	b := &PipeEnd{in: make(chan []byte, 64)}
+	a.peer, b.peer = b, a
+	return a, b
+}
+
+func (p *PipeEnd) Write(b []byte) (int, error) {
+	if p.closed {
+		return 0, ErrIO
+	}
+	if len(b) == 0 {
+		return 0, nil
+	}
+	p.Wrote += len(b)
+	p.peer.in <- append([]byte(nil), b...)
+	return len(b), nil
+}
+
+func (p *PipeEnd) Read(b []byte) (int, error) {
+	for len(p.left) == 0 {
+		chunk, ok := <-p.in
+		if !ok {
+			return 0, io.EOF
+		}
+		p.left = chunk
+	}
+	if len(b) == 0 {
+		return 0, nil
+	}
+	n := len(p.left)
+	if n > len(b) {
+		n = len(b)
+	}
+	if p.OneByOne {
+		n = 1
+	}
+	copy(b, p.left[:n])
+	p.left = p.left[n:]
+	return n, nil
+}
+
+// Close closes this end: the peer reads EOF after draining.
+func (p *PipeEnd) Close() error {
+	if !p.closed {
+		p.closed = true
+		close(p.peer.in)
+	}
+	return nil
+}
